@@ -212,7 +212,9 @@ def run(binary, cfg, seed, fault=None, argv=("-t",), timeout=90, strict=False, y
             if fault and fault[0] == k and fault[1] == "garbage":
                 t_fault = time.time()
                 i = fault[2]
-                garbage_sent = make_garbage(fault[3], outs[i] if i < len(outs) else b"")
+                if fault[3] == "late":
+                    time.sleep(0.3)          # the undecodable answer arrives a little late (it is undecodable all the same)
+                garbage_sent = make_garbage("ff" if fault[3] == "late" else fault[3], outs[i] if i < len(outs) else b"")
                 outs = outs[:i] + [garbage_sent] + outs[i + 1:]
                 verdict = "fault garbage@%d reply %d" % (k, i)
             for o in outs:
